@@ -180,6 +180,8 @@ pub fn messages() -> Vec<(String, Vec<u8>)> {
     let blocks = blocks();
     let small = blocks[0].clone();
     let big = blocks.iter().max_by_key(|b| b.data().as_slice().len()).unwrap().clone();
+    // the smallest block that carries an extension (an extra molecule field)
+    let ext = blocks.iter().filter(|b| b.extension().is_some()).min_by_key(|b| b.data().as_slice().len()).unwrap().clone();
     let hs = byte32s();
     let push = |out: &mut Vec<(String, Vec<u8>)>, n: &str, b: &[u8]| out.push((n.to_string(), b.to_vec()));
 
@@ -192,14 +194,14 @@ pub fn messages() -> Vec<(String, Vec<u8>)> {
     }
     let get_blocks = packed::GetBlocks::new_builder().block_hashes(hs.clone().pack()).build();
     push(&mut out, "Sync/GetBlocks", packed::SyncMessage::new_builder().set(get_blocks).build().as_slice());
-    for (tag, b) in [("small", &small), ("big", &big)] {
+    for (tag, b) in [("small", &small), ("ext", &ext), ("big", &big)] {
         let send_block = packed::SendBlock::new_builder().block(b.data()).build();
         push(&mut out, &format!("Sync/SendBlock-{tag}"), packed::SyncMessage::new_builder().set(send_block).build().as_slice());
     }
     push(&mut out, "Sync/InIBD", packed::SyncMessage::new_builder().set(packed::InIBD::new_builder().build()).build().as_slice());
 
     // ---- relay
-    for (tag, b) in [("small", &small), ("big", &big)] {
+    for (tag, b) in [("small", &small), ("ext", &ext), ("big", &big)] {
         let cb = packed::CompactBlock::build_from_block(b, &Default::default());
         push(&mut out, &format!("Relay/CompactBlock-{tag}"), packed::RelayMessage::new_builder().set(cb).build().as_slice());
     }
